@@ -514,10 +514,28 @@ def check_history(case, acc):
     acc.traces += 1
 
 
+def setup_history():
+    """Every definition event once (functions, the partial), in a fixed order."""
+    names = [e[0] for e in events()]
+    return [i for i, nm in enumerate(names) if nm.startswith('def ') and nm != 'def arrayLength' and nm != 'def abs'] + [names.index('pv=systemPartial(vb,1)')]
+
+
 def fam_histories(arg):
     length, firsts = arg
     acc = Acc('histories')
     n = len(events())
+    if length == 'after-setup':
+        # all definitions first, then every ordered pair of events: the same call twice, a call after another call
+        setup = setup_history()
+        for first in firsts:
+            for second in range(n):
+                acc.cases += 1
+                check_history({'history': setup + [first, second]}, acc)
+                if first == second:
+                    acc.nontrivial += 1
+            acc.outcome(('setup', first))
+        acc.sample({'history': [events()[i][0] for i in setup + [firsts[0], firsts[0]]]})
+        return acc.result()
     for first in firsts:
         for rest in itertools.product(range(n), repeat=length - 1):
             acc.cases += 1
@@ -824,12 +842,12 @@ def families(tier):
     each = [{'i': i, 'kind': k} for k in (0, 1) for i in range(len(SCRIPT_FUNCTIONS))]
     cross = [{'v': v, 'how': h} for v in range(len(CROSS_VALUES)) for h in ('second-script', 'expression', 'host-call')]
     hlen = 3 if tier == 'quick' else 4
-    hshards = [(length, [f]) for length in range(1, hlen + 1) for f in range(len(evs))]
+    hshards = [(length, [f]) for length in range(1, hlen + 1) for f in range(len(evs))] + [('after-setup', [f]) for f in range(len(evs))]
     hosts = [{'mask': m, 'p': p, 'kind': k} for k in (0, 1) for m in range(1 << len(HOST_NAMES)) for p in range(len(HOST_PROGRAMS)) if k == 0 or m]
     return [
         Family('convention', fam_convention, split(cc, 16), 'parameters 0..3 x "..." x arguments 0..5 x 9 call paths (+ header spellings)', expected=len(cc)),
         Family('scoping', fam_scoping, [[s] for s in seeds], f'BFS to fixpoint over {len(evs)} events from {len(seeds)} seed states (each shard a full search)', expected=len(seeds)),
-        Family('histories', fam_histories, hshards, f'every event history of length <= {hlen} over the {len(evs)} events from the empty state, stepwise compared, without state merging', expected=sum(len(evs) ** k for k in range(1, hlen + 1))),
+        Family('histories', fam_histories, hshards, f'every event history of length <= {hlen} over the {len(evs)} events from the empty state, plus every ordered pair of events after a setup history that defines every function and the partial; stepwise compared, without state merging', expected=sum(len(evs) ** k for k in range(1, hlen + 1)) + len(evs) ** 2),
         Family('reuse', fam_reuse, [[{'i': i} for i in range(len(REUSE_FAILS))]], 'a first run that fails inside a data helper called with variables (undefined function, statement budget, bad include) or plainly, then a second run with the SAME options object', expected=len(REUSE_FAILS)),
         Family('crossrun', fam_crossrun, [cross], 'a function value (script function, partial, nested partial, wrapper) created in one run and called in a second run with different globals: from a script, from an expression, by the host', expected=len(cross)),
         Family('host_each', fam_host_each, split(each, 8), 'the host supplies exactly one library name - every library name in turn, bound to a host function and bound to null', expected=len(each)),
